@@ -79,14 +79,18 @@ def neg (P : WPt) : WPt := ⟨P.isId, P.x, negMod P.y E.p⟩
 /-- Canonical form of a value (identity ↦ `(true, 0, 0)`). -/
 def canon (E : WCurve) (P : WPt) : WPt := if P.isId then E.id else P
 
-/-- `n · P` by double-and-add from the least significant bit, as `mul_by_u128`
-(`fuel` ≥ number of bits of `n`). -/
-def mulLsb : Nat → Nat → WPt → Option WPt → Option WPt
+/-- `mul_by_u128` over any carrier: double-and-add from the least significant bit; `res = none`
+until the first set bit, `tmp` holds `2^i · p` (`fuel` ≥ number of bits of `n`). -/
+def mulLsbG {G : Type} (add : G → G → G) (dbl : G → G) : Nat → Nat → G → Option G → Option G
   | 0, _, _, res => res
   | fuel + 1, n, tmp, res =>
     if n = 0 then res else
-    let res' := if n % 2 = 1 then (match res with | none => some tmp | some a => some (E.add a tmp)) else res
-    mulLsb fuel (n / 2) (E.double tmp) res'
+    let res' := if n % 2 = 1 then (match res with | none => some tmp | some a => some (add a tmp)) else res
+    mulLsbG add dbl fuel (n / 2) (dbl tmp) res'
+
+/-- `mul_by_u128` on circuit points. -/
+def mulLsb (fuel n : Nat) (tmp : WPt) (res : Option WPt) : Option WPt :=
+  mulLsbG E.add E.double fuel n tmp res
 
 /-- Integer multiple in the model. -/
 def smul (n : Nat) (P : WPt) : WPt :=
